@@ -25,6 +25,7 @@ from __future__ import annotations
 
 import ast
 import importlib
+import inspect
 import math
 import warnings
 from fractions import Fraction
@@ -246,22 +247,70 @@ def gstrip_mp(rho):
 
 
 # ====================================================================================================== run
+DEPS = {  # a disagreement about the key rule can be caused by (and is explained by a failing input of) these rules
+    "TrefethenCC": ["ClenshawCurtis"], "TrefethenStripCC": ["ClenshawCurtis"], "TrefethenGC2": ["GaussChebyshevType2"],
+    "TrefethenStripGC2": ["GaussChebyshevType2"], "_g2": ["Trefethen"], "_derg2": ["Trefethen"], "_g3": ["Trefethen"],
+    "_derg3": ["Trefethen"], "_gstrip": ["TrefethenStrip"], "_dergstrip": ["TrefethenStrip"],
+}
+FILE_RULES = {  # props file stem -> rules its theorems talk about
+    "nc": ["Trapezoidal", "MidPoint", "Simpson"], "cheb": ["ClenshawCurtis", "FejerFirst", "FejerSecond", "GaussChebyshev"],
+    "cc": ["ClenshawCurtis"], "fejer1": ["FejerFirst"], "fejer1_exact": ["FejerFirst"], "fejer2": ["FejerSecond"],
+    "fejer2_exact": ["FejerSecond"], "gauss": ["GaussChebyshev"], "gauss_cheb2": ["GaussChebyshevType2"],
+    "gauss_laguerre": ["GaussLaguerre"], "gauss_legendre": ["GaussLegendre"], "subst": SUBST, "tref": ["Trefethen"],
+    "trefshape": ["Trefethen", "ClenshawCurtis"],
+    "shape": ["Trapezoidal", "Simpson", "MidPoint", "UniformInteger", "RectangleRuleSineEndPoints", "ClenshawCurtis"],
+    "shape2": ["GaussChebyshevLobatto", "FejerFirst", "FejerSecond"],
+}
+
+
+def related(tie_rules, cand_rule):
+    for t in tie_rules:
+        if t and (t in cand_rule or cand_rule in t or any(d in cand_rule for d in DEPS.get(t, []))):
+            return True
+    return False
+
+
 class Rep:
-    """Collect failures, report the smallest MAXREP per obligation."""
+    """Collects failures.  Property failures found on the implementation (found=True) are reported first, the smallest
+    MAXREP per obligation.  Tie failures (model / leaf / composition disagreements, found=False) and broken theorems go
+    through Ctx.broken_tie: the first failing input of the property that is not a listed known finding (inputs of the same
+    or a dependent rule first) becomes their replay; only if there is none they are reported no-failing-input-found."""
 
     def __init__(self, ctx):
         self.ctx = ctx
         self.items = []
 
-    def add(self, size, ob, key, obs, text, rp=None, found=True):
-        self.items.append((size, ob, key, obs, text, rp or {}, found))
+    def add(self, size, ob, key, obs, text, rp=None, found=True, rule=None):
+        rp = rp or {}
+        self.items.append((size, ob, key, obs, text, rp, found, rule or rp.get("rule") or key.split("(")[0]))
+
+    def candidates(self, tie_rules=()):
+        props = [t for t in sorted(self.items, key=lambda t: (t[0], t[2])) if t[6] and not self.ctx.is_known(t[2], t[3])]
+        rel = [t for t in props if related(tie_rules, t[7])]
+        rest = [t for t in props if not related(tie_rules, t[7])]
+        return [(t[2], t[3], t[4], t[5]) for t in rel + rest]
 
     def flush(self):
         per = {}
-        for size, ob, key, obs, text, rp, found in sorted(self.items, key=lambda t: (t[0], t[2])):
+        items = sorted(self.items, key=lambda t: (t[0], t[2]))
+        for size, ob, key, obs, text, rp, found, rule in items:
+            if not found:
+                continue
             per[ob] = per.get(ob, 0) + 1
             if per[ob] <= MAXREP:
-                self.ctx.fail(ob, key, obs, text, rp, found_input=found)
+                self.ctx.fail(ob, key, obs, text, rp)
+        for size, ob, key, obs, text, rp, found, rule in items:
+            if found:
+                continue
+            per[ob] = per.get(ob, 0) + 1
+            if per[ob] <= MAXREP:
+                self.ctx.broken_tie(ob, text, self.candidates([rule]))
+        # theorems over the generated definitions / hand model that no longer check
+        for name, ob in self.ctx.obligations.items():
+            if ob["status"] != "discharged" and not ob.get("refuted_by"):
+                stem = ob["file"].replace("C01_props_", "").replace(".v", "")
+                rules = [stem.replace("subst_", "")] if stem.startswith("subst_") else FILE_RULES.get(stem, [])
+                self.ctx.broken_tie(name, f"theorem {name} ({ob['file']}) no longer checks", self.candidates(rules))
         if self.items:
             self.ctx.notes.append(f"{len(self.items)} disagreements; at most {MAXREP} reported per obligation: {per}")
 
@@ -294,22 +343,38 @@ def run(ctx: Ctx):
     importlib.reload(og)
     from scipy.special import roots_chebyu, roots_genlaguerre
 
-    info = gen(ctx)
-    ctx.copy_coq("C01")
-    status = ctx.coq_build()
-    ctx.register_props(status)
-    if not status.get("C01_model.v", False) or not status.get("C01_gen.v", False):
-        raise RuntimeError("C01 model does not compile: " + (ctx.logs.get("C01_model.v", "") + ctx.logs.get("C01_gen.v", ""))[-600:])
+    gen_err, info, status = None, {}, {}
+    try:
+        info = gen(ctx)
+    except P.Unsupported as e:  # translator fails closed: the tie is broken; the implementation-side oracles still run
+        gen_err = e
+    tie_err = None
+    if gen_err is None:
+        ctx.copy_coq("C01")
+        status = ctx.coq_build()
+        ctx.register_props(status)
+        if not status.get("C01_model.v", False) or not status.get("C01_gen.v", False):
+            tie_err = "C01_gen.v / C01_model.v do not compile: " + (ctx.logs.get("C01_gen.v", "") + ctx.logs.get("C01_model.v", ""))[-400:]
+    tie_on = gen_err is None and tie_err is None
     # full-strength Fejer theorems: the positive file compiles iff the constructor sums nsum terms (series length read from
-    # the source); if it fails and the refuted file compiles, the obligation is decided by the refutation + known finding
+    # the source); if it fails and the refuted file compiles, the obligation is decided by the refutation + known finding.
+    # Without a Coq verdict (broken tie) the known defect is recognised by its canonical witness value.
     truncated = {}
-    for cname, (pos, ref, _, stem) in KNOWN.items():
-        truncated[cname] = (not status.get(f"C01_props_{stem}_exact.v", False)) and status.get(f"C01_refuted_{stem}.v", False)
-        if truncated[cname]:
-            ctx.mark_refuted(pos, ref)
-        ctx.cov.setdefault("fejer_series_length", {})[cname] = {"source": info[cname].get("series_length"),
+    for cname, (pos, ref, kkey, stem) in KNOWN.items():
+        if tie_on:
+            truncated[cname] = (not status.get(f"C01_props_{stem}_exact.v", False)) and status.get(f"C01_refuted_{stem}.v", False)
+            if truncated[cname]:
+                ctx.mark_refuted(pos, ref)
+        else:
+            try:
+                gw = globals()["build"](getattr(og, cname), 3)
+                truncated[cname] = ctx.is_known(kkey, round(float(moment(gw.points, gw.weights, 2)[0]), 9))
+            except Exception:  # noqa: BLE001
+                truncated[cname] = False
+        ctx.cov.setdefault("fejer_series_length", {})[cname] = {"source": info.get(cname, {}).get("series_length"),
                                                                "positive_theorem_compiles": bool(status.get(f"C01_props_{stem}_exact.v", False)),
-                                                               "refuted_file_compiles": bool(status.get(f"C01_refuted_{stem}.v", False))}
+                                                               "refuted_file_compiles": bool(status.get(f"C01_refuted_{stem}.v", False)),
+                                                               "treated_as_known_truncated_series": bool(truncated[cname])}
     rep = Rep(ctx)
     rng = ctx.rng
     import time as _t
@@ -397,7 +462,7 @@ def run(ctx: Ctx):
                     if pred:
                         pos, ref, kkey, _ = KNOWN[cname]
                         if f"{cname}({n}):degree={d}" == kkey:
-                            rep.add(0, pos, kkey, round(float(s), 9),
+                            rep.add(0, pos if pos in ctx.obligations else f"exact_{cname}", kkey, round(float(s), 9),
                                     f"{key0}: sum w_i x_i^{d} = {float(s):.12g}, integral of x^{d} over [-1,1] = {float(e):.12g} "
                                     f"(series of the weights stops one term early; same defect at every "
                                     f"{'odd n >= 3, degree n-1' if cname == 'FejerFirst' else 'n >= 2, degree 2*((n+1)//2-1)'}; Coq: {ref})",
@@ -534,8 +599,8 @@ def run(ctx: Ctx):
             check_moments("GaussLegendre", str(n), gl_, n, 2 * n - 1, int_legendre)
         if gu_ is not None:
             check_moments("GaussChebyshevType2", str(n), gu_, n, 2 * n - 1, int_cheb2, lambda x: m.sqrt(1 - x * x), what="sqrt(1-x^2) x^d")
-    for al in alphas + [2.25, 7.5]:
-        for n in range(2, nmax_o + 1, 1 if ctx.quick is False else 3):
+    for al in sorted(set(alphas + [-0.5, -0.25, 1.0, 2.25, 7.5])):
+        for n in (range(2, nmax_o + 1) if not ctx.quick else [2, 3, 4, 5, 8, 11, 14, 17, 20, 23]):
             lx, lw = roots_genlaguerre(n, al)
             oracle_validate("roots_genlaguerre", lx, lw, n, lambda d, al=al: m.gamma(d + m.mpf(al) + 1), f"scipy.special.roots_genlaguerre({n}, {al!r})")
             if not (np.all(np.diff(lx) > 0) and np.all(lx > 0)):
@@ -551,8 +616,11 @@ def run(ctx: Ctx):
     maps = node_maps()
     for cname in SUBST:
         cls = getattr(og, cname)
-        pname = info[cname]["extras"][0]
-        dflt = info[cname]["defaults"][pname]
+        sig = [prm for nm, prm in inspect.signature(cls.__init__).parameters.items() if nm not in ("self", "npoints")]
+        if len(sig) != 1 or sig[0].default is inspect.Parameter.empty:
+            rep.add(0, f"subst_{cname}", f"{cname}:signature", str([q.name for q in sig]), f"{cname}.__init__ no longer takes (npoints, step=default)", {"rule": cname}, found=False)
+            continue
+        dflt = sig[0].default
         for n in sizes(ctx, odd_only=True, lo=3 if cname == "TanhSinh" else 1):
             mhalf = (n - 1) // 2
             hmax = min(1.0, 2.5 / max(mhalf, 1))
@@ -712,6 +780,8 @@ def run(ctx: Ctx):
     # two groups (cases that need the literal library arrays carry the big header), interleaved shards, and a second
     # pass over the failures in small shards so that a shard that timed out on a loaded machine is not a disagreement
     hdr_plain, hdr_full = header([]), header(defs)
+    if not tie_on:
+        cases, meta = [], []
     need = [any(nm in g for nm in ("lx_", "lw_", "ux_", "uw_", "gx_", "gw_")) for g, _ in cases]
     bad = []
     for gname, hdr, idxs in (("C01_cases", hdr_plain, [i for i in range(len(cases)) if not need[i]]),
@@ -747,6 +817,11 @@ def run(ctx: Ctx):
                     {"coq_goal": cases[i][0][:400], "rule": mt["rule"], "args": mt["args"]}, found=False)
 
     rep.flush()
+    if gen_err is not None:
+        cls_name = str(gen_err).split(":")[0].strip()
+        ctx.broken_tie("translator(onedgrid.py)", gen_err, rep.candidates([cls_name]))
+    elif tie_err is not None:
+        ctx.broken_tie("model(C01_model.v)", tie_err, rep.candidates([]))
     for cname_s, n_s in (("ClenshawCurtis", 7), ("FejerFirst", 3), ("FejerSecond", 3)):
         try:
             gs = raw_build(getattr(og, cname_s), n_s)
